@@ -6,6 +6,7 @@ import (
 	"errors"
 	"fmt"
 	"os"
+	"sort"
 	"strings"
 	"sync"
 	"sync/atomic"
@@ -21,6 +22,7 @@ import (
 	"verif/harness/broker"
 	"verif/harness/memnet"
 	"verif/harness/uplib"
+	"verif/harness/vrun"
 	"verif/harness/world"
 )
 
@@ -62,9 +64,12 @@ type Scenario struct {
 	// SlowHandler: the application's connection-level event handler ("disconnected" | "reconnected") takes SlowHandlerMs
 	// (virtual); the library calls these handlers inline in its reconnect loop.
 	// CloseFails: the transport's Close reports an error after closing ("broken": on a broken link only).
-	CloseFails    string `json:"transport_close_reports_error,omitempty"`
-	SlowHandler   string `json:"slow_event_handler,omitempty"`
-	SlowHandlerMs int    `json:"slow_event_handler_ms,omitempty"`
+	CloseFails  string `json:"transport_close_reports_error,omitempty"`
+	SlowHandler string `json:"slow_event_handler,omitempty"`
+	// Census: after everything was closed (client and broker side) wait five virtual minutes and list the library
+	// goroutines that are still alive in the bubble.
+	Census        bool `json:"goroutine_census_after_close,omitempty"`
+	SlowHandlerMs int  `json:"slow_event_handler_ms,omitempty"`
 }
 
 // SlowLogSites are log calls of the library that sit between two steps of the reconnect / resume procedure.
@@ -149,6 +154,9 @@ type Outcome struct {
 	AllUpIDs      []uuid.UUID          // every upstream id the broker ever assigned
 	AllDownAlias  map[uuid.UUID]uint32 // every downstream the broker ever registered: id -> alias
 	LinkInfos     []LinkInfo
+	// Leftover: innermost library function <- creator of every library goroutine alive after the census wait
+	Leftover      []string
+	LeftoverFirst string
 	DialStacks    []string
 }
 
@@ -891,5 +899,16 @@ func Run(s Scenario) *Outcome {
 		store.mu.Unlock()
 	}
 	w.Close()
+	if s.Census {
+		time.Sleep(5 * time.Minute)
+		synctest.Wait()
+		for i, g := range vrun.BubbleCensus() {
+			o.Leftover = append(o.Leftover, g.InnermostLib()+" <- "+strings.TrimPrefix(g.CreatedBy, vrun.LibPrefix))
+			if i == 0 {
+				o.LeftoverFirst = g.Text
+			}
+		}
+		sort.Strings(o.Leftover)
+	}
 	return o
 }
